@@ -3,7 +3,6 @@ package migworld
 import (
 	"bytes"
 	"context"
-	"errors"
 	"fmt"
 	"testing/synctest"
 
@@ -70,6 +69,7 @@ type startRes struct {
 	failInfo    opInfo
 	ctxErrAtEnd error
 	capped      bool
+	stages      []string // stage of every released operation (index j-1)
 }
 
 type env struct {
@@ -125,8 +125,10 @@ func (e *env) start(img *memory.Database, b binary, in inject) *startRes {
 		if in.logOps {
 			c.Logf("%s op %d/%d of %d: %s (mig %d)", in.tag, j, chosen, nParked, info, res.rl.active)
 		}
+		st := stageOf(res.rl.active, info)
+		res.stages = append(res.stages, st)
 		if in.cancelAtOp == j {
-			stageAtCancel = stageOf(res.rl.active, info)
+			stageAtCancel = st
 		}
 	}
 	var runner *migration.MigrationRunner
@@ -332,4 +334,3 @@ func diffBuckets(c *sim.Ctx, got, want *memory.Database) string {
 	return "none"
 }
 
-var errRefused = errors.New("refused")
